@@ -13,9 +13,10 @@ import (
 
 func init() {
 	fw.Register(&fw.Property{
-		ID:     "C10",
-		Level:  "exploration",
-		Jitter: true,
+		ID:         "C10",
+		Level:      "exploration",
+		Jitter:     true,
+		RaceSample: true,
 		Rule: "random references (90% A/C/G/T, 10% with IUPAC symbols) and alignments over the full alphabet (width 1-500, 1-40 rows) with ambiguity runs at either end, length-1 runs, runs separated by one base and all-ambiguous rows; model comparison plus reconstruction of every sequence from its observed row; " +
 			"non-trivial = the alignment has a SNP and an ambiguity run; distinct = (width class, rows, run-shape flags seen: run at start, run at end, single-column run, runs separated by one base, all-ambiguous row)",
 		Assumptions: []string{"with an ambiguous reference symbol 'equals the reference' is read as 'is one of the bases the reference symbol denotes'"},
